@@ -73,7 +73,8 @@ def run_task(task):
         if task.get("time_cap"):
             deadline = time.monotonic() + task["time_cap"]
         ex = Explorer(mw, budget=tuple(task.get("budget", (0, 0))), cache=task.get("cache", True),
-                      max_exec=task.get("max_exec"), deadline=deadline, on_execution=on_x)
+                      max_exec=task.get("max_exec"), deadline=deadline, on_execution=on_x,
+                      shard=tuple(task["shard"]) if task.get("shard") else None)
         if task.get("determinism_check"):
             a = ex.execute((), trace=True)
             b = ex.execute((), trace=True)
